@@ -33,8 +33,8 @@ impl Family for C08Family {
 
     fn total(&self, tier: Tier) -> u64 {
         match tier {
-            Tier::Quick => 4_000,
-            Tier::Thorough => 300_000,
+            Tier::Quick => 15_000,
+            Tier::Thorough => 1_200_000,
         }
     }
 
